@@ -226,7 +226,10 @@ struct MpscWorld<T, const K: usize, const NS: usize, const TWO: bool> {
     live: usize,
     // witnesses
     woken_path: bool,
+    woken_by_drop: bool,
     got_in_order: u8,
+    got_disc: bool,
+    got_after_last_drop: bool,
     cloned_send: bool,
 }
 
@@ -244,12 +247,16 @@ impl<T: Copy + PartialEq + kani::Arbitrary, const K: usize, const NS: usize, con
             tail: 0,
             live: 1,
             woken_path: false,
+            woken_by_drop: false,
             got_in_order: 0,
+            got_disc: false,
+            got_after_last_drop: false,
             cloned_send: false,
         }
     }
 
-    /// Trigger state of KF-C34-1: every sender is dropped, the queue is empty, the receiver exists.
+    /// Every sender is dropped, the queue is empty, the receiver exists (the state in which the
+    /// receiver must see the disconnection; the defect KF-C34-1 found here was repaired by dfad154).
     fn disconnected_and_empty(&self) -> bool {
         self.live == 0 && self.head == self.tail && self.rx.is_some()
     }
@@ -281,18 +288,19 @@ impl<T: Copy + PartialEq + kani::Arbitrary, const K: usize, const NS: usize, con
         }
     }
 
-    /// `keep_sender`: the last live sender is not dropped (prefix of the `__known` harness).
+    /// `keep_sender`: the last live sender is not dropped (prefix of the last-sender-drop scenario).
     fn op_drop_sender(&mut self, i: usize, keep_sender: bool) {
         self.wk.snap();
         if self.tx[i].is_some() && !(keep_sender && self.live == 1) {
             let s = self.tx[i].take();
             drop(s);
             self.live -= 1;
-            // negated trigger of KF-C34-1: the last sender is not dropped on an empty queue
-            kani::assume(!self.disconnected_and_empty());
-            if self.live == 0 && self.rx.is_some() {
-                // (queue not empty here, so the receiver cannot be parked: a send cleared it)
-                assert!(self.wk.woken_if_parked(), "C34: mpsc drop of the last sender wakes the parked receiver");
+            if self.live == 0 {
+                if self.rx.is_some() {
+                    assert!(self.wk.woken_if_parked(), "C34: mpsc drop of the last sender wakes the parked receiver");
+                    self.woken_by_drop |= self.wk.parked != 0;
+                }
+                self.wk.parked = 0;
             }
         }
     }
@@ -313,6 +321,7 @@ impl<T: Copy + PartialEq + kani::Arbitrary, const K: usize, const NS: usize, con
                     assert!(self.head < self.tail, "C34: mpsc never delivers a value that was not sent (or twice)");
                     assert!(Some(x) == self.fifo[self.head], "C34: mpsc delivers in FIFO order");
                     self.head += 1;
+                    self.got_after_last_drop |= self.live == 0;
                     if self.got_in_order < 2 {
                         self.got_in_order += 1;
                     }
@@ -322,6 +331,7 @@ impl<T: Copy + PartialEq + kani::Arbitrary, const K: usize, const NS: usize, con
                         self.head == self.tail && self.live == 0,
                         "C34: mpsc reports disconnection only if no value is pending and every sender is dropped"
                     );
+                    self.got_disc = true;
                 }
                 Poll::Pending => {
                     assert!(self.head == self.tail, "C34: mpsc never returns Pending while a value is queued");
@@ -335,8 +345,7 @@ impl<T: Copy + PartialEq + kani::Arbitrary, const K: usize, const NS: usize, con
         }
     }
 
-    /// One symbolic step of the schedule. The trigger state of KF-C34-1 is assumed away as soon as
-    /// it would be entered (negated trigger), *before* the two obligations that concern it.
+    /// One symbolic step of the schedule.
     fn step(&mut self, keep_sender: bool) {
         let op: u8 = kani::any();
         kani::assume(op < 5);
@@ -350,38 +359,36 @@ impl<T: Copy + PartialEq + kani::Arbitrary, const K: usize, const NS: usize, con
                 self.op_clone(i, j);
             }
             2 => self.op_drop_sender(i, keep_sender),
-            3 => {
-                self.op_poll();
-                // negated trigger of KF-C34-1: the queue is not drained after the last sender is gone
-                kani::assume(!self.disconnected_and_empty());
-            }
+            3 => self.op_poll(),
             _ => self.op_drop_receiver(),
         }
     }
 }
 
-/// Negated trigger of KF-C34-1: every schedule that never reaches the state "every sender dropped
-/// and queue empty while the receiver exists" (dropping the last sender on a non-empty queue and
-/// receiving the queued values afterwards IS included, up to the poll that drains the queue).
-/// Every obligation is asserted, including the disconnection ones.
-fn mpsc_schedule_rest<const K: usize, const NS: usize, const TWO: bool>() {
+/// Every schedule of K operations, every obligation asserted: exactly-once delivery, Pending iff
+/// the queue is empty and a sender is alive, Ready(None) iff the queue is empty and every sender is
+/// dropped (values queued before the last drop are delivered first), wake-up of a parked receiver
+/// by send and by the drop of the last sender.
+fn mpsc_schedule<const K: usize, const NS: usize, const TWO: bool>() {
     let mut w = MpscWorld::<(), K, NS, TWO>::new();
     for _ in 0..K {
         w.step(false);
     }
     kani::cover!(w.woken_path && w.got_in_order >= 1, "mpsc: parked receiver woken by send, value received");
     kani::cover!(w.cloned_send && w.got_in_order >= 1, "mpsc: value sent through a cloned sender received");
+    kani::cover!(w.woken_by_drop && w.got_disc, "mpsc: parked receiver woken by the drop of the last sender, poll Ready(None)");
     kani::cover!(K < 4 || w.got_in_order == 2, "mpsc: two values received (K >= 4)");
     kani::cover!(
-        w.live == 0 && w.tail > 0 && (K < 4 || w.head > 0),
-        "mpsc: last sender dropped on a non-empty queue (K >= 4: and a queued value received afterwards)"
+        K < 4 || (w.got_after_last_drop && w.got_disc),
+        "K >= 4: value queued before the last sender drop is delivered first, then Ready(None)"
     );
     core::mem::forget(w);
 }
 
-/// Trigger of KF-C34-1: a symbolic prefix of P steps that keeps at least one sender alive and ends
-/// with an empty queue and a live receiver; then every live sender is dropped (the last of these
-/// drops enters the trigger state), then one poll.
+/// The scenario that exposed KF-C34-1 (repaired by dfad154): a symbolic prefix of P steps that keeps
+/// at least one sender alive and ends with an empty queue and a live receiver; then every live
+/// sender is dropped (the last of these drops must wake a parked receiver), then one poll, which
+/// must be Ready(None).
 fn mpsc_schedule_last_drop<const P: usize, const NS: usize>() {
     let mut w = MpscWorld::<(), P, NS, false>::new();
     for _ in 0..P {
@@ -390,18 +397,12 @@ fn mpsc_schedule_last_drop<const P: usize, const NS: usize>() {
     kani::assume(w.live >= 1 && w.head == w.tail && w.rx.is_some());
     let was_parked = w.wk.parked != 0;
     for i in 0..NS {
-        w.wk.snap();
-        if let Some(s) = w.tx[i].take() {
-            drop(s);
-            w.live -= 1;
-            if w.live == 0 {
-                assert!(w.wk.woken_if_parked(), "C34: mpsc drop of the last sender wakes the parked receiver");
-            }
-        }
+        w.op_drop_sender(i, false);
     }
     kani::cover!(was_parked && w.disconnected_and_empty(), "mpsc: receiver was parked when the last sender was dropped");
     kani::cover!(!was_parked && w.disconnected_and_empty(), "mpsc: receiver was not parked when the last sender was dropped");
     w.op_poll();
+    assert!(w.got_disc, "C34: mpsc poll reports disconnection when the queue is empty and every sender is dropped");
     core::mem::forget(w);
 }
 
@@ -581,24 +582,25 @@ fn c34_notification_schedule_k4() {
 }
 
 // @check props=C34 tier=quick
-// @desc mpsc (negated trigger of KF-C34-1), element type (): for every schedule of 4 atomic operations from {send(i), clone sender i->j, drop sender i, poll, drop receiver} on up to 2 senders that never enters the state "every sender dropped, queue empty, receiver alive": send always succeeds; every poll is Ready(Some) iff the number of sends exceeds the number of receives (each sent element received exactly once, also after every sender is gone), Pending iff the queue is empty (and then a sender is alive), Ready(None) only if queue empty and no sender left; a send while the receiver is parked wakes the registered waker
-// @bounds k = 4 operations (shorter included), <= 2 live senders, 1 receiver, 1 waker, element type () (queue = counter; value identity / FIFO order: see c34_mpsc_fifo_three_values); unwind 5 = k + 1
+// @desc mpsc, element type (): for every schedule of 3 atomic operations from {send(i), clone sender i->j, drop sender i, poll, drop receiver} on up to 2 senders: send through a live handle always succeeds; every poll is Ready(Some) iff the number of sends exceeds the number of receives (each sent element received exactly once; elements queued before the last sender drop are delivered first), Pending iff the queue is empty and a sender is alive, Ready(None) iff the queue is empty and every sender is dropped; a send and the drop of the last sender while the receiver is parked wake the registered waker
+// @bounds k = 3 operations (shorter included), <= 2 live senders, 1 receiver, 1 waker, element type () (queue = counter; value identity / FIFO order: see c34_mpsc_fifo_three_values); unwind 4 = k + 1
 // @assume critical_section::acquire/release stubbed by no-ops (support_cs.rs): a critical section is a block no other operation interleaves with; true parallelism inside it is outside the claim
 // @assume AtomicUsize::fetch_sub stubbed (support_cs.rs fetch_sub_never_last: decrements, reports "other references exist"): the shared state behind an Arc is never destroyed or freed; Drop impls of the channel handle types run for real, Arc::drop_slow and deallocation are outside the claim
 // @assume each poll step polls a fresh MpscReceiver::receive() future once (the future's only state is a clone of the shared Arc)
-// @assume negated trigger of KF-C34-1: kani::assume(!(live senders == 0 && queue empty && receiver alive)) after every sender drop and every poll
+// @assume MpscSender::clone is two steps (sender_count += 1 in a critical section, then Arc clone) executed back to back; the cloning thread holds a live sender, so the count is >= 1 in between
 // @enc dcps::channels::mpsc::mpsc_channel
 // @enc dcps::channels::mpsc::MpscSender::send
 // @enc <dcps::channels::mpsc::MpscSender as Clone>::clone
+// @enc <dcps::channels::mpsc::MpscSender as Drop>::drop
 // @enc dcps::channels::mpsc::MpscReceiver::receive
 // @enc <dcps::channels::mpsc::MpscReceiverFuture as Future>::poll
 #[kani::proof]
-#[kani::unwind(5)]
+#[kani::unwind(4)]
 #[kani::stub(critical_section::acquire, super::support_cs::cs_acquire)]
 #[kani::stub(critical_section::release, super::support_cs::cs_release)]
 #[kani::stub(core::sync::atomic::Atomic::<usize>::fetch_sub, super::support_cs::fetch_sub_never_last)]
-fn c34_mpsc_schedule_k4__rest() {
-    mpsc_schedule_rest::<4, 2, false>();
+fn c34_mpsc_schedule_k3() {
+    mpsc_schedule::<3, 2, false>();
 }
 
 // @check props=C34 tier=quick
@@ -611,6 +613,7 @@ fn c34_mpsc_schedule_k4__rest() {
 // @enc dcps::channels::mpsc::mpsc_channel
 // @enc dcps::channels::mpsc::MpscSender::send
 // @enc <dcps::channels::mpsc::MpscSender as Clone>::clone
+// @enc <dcps::channels::mpsc::MpscSender as Drop>::drop
 // @enc dcps::channels::mpsc::MpscReceiver::receive
 // @enc <dcps::channels::mpsc::MpscReceiverFuture as Future>::poll
 #[kani::proof]
@@ -623,22 +626,23 @@ fn c34_mpsc_fifo_three_values() {
     mpsc_fifo_three_values();
 }
 
-// @check props=C34 tier=quick known=KF-C34-1
-// @desc mpsc (trigger of KF-C34-1): after any 2-operation prefix that keeps a sender alive and leaves the queue empty and the receiver alive, every sender is dropped and the receiver polls once: the drop of the last sender must wake a parked receiver and the poll must be Ready(None). Expected to FAIL: MpscInner::is_closed is never set, MpscSender has no Drop impl
-// @bounds prefix of 2 symbolic operations, then <= 2 sender drops, then 1 poll; <= 2 senders, 1 waker, element type (); unwind 4
+// @check props=C34 tier=quick
+// @desc mpsc last-sender drop (the scenario that exposed KF-C34-1, repaired by dfad154): after any 1-operation prefix that keeps a sender alive and leaves the queue empty and the receiver alive, every sender is dropped and the receiver polls once: the drop of the last sender wakes a parked receiver and the poll is Ready(None)
+// @bounds prefix of 1 symbolic operation, then <= 2 sender drops, then 1 poll; <= 2 senders, 1 waker, element type (); unwind 4
 // @assume critical_section::acquire/release stubbed by no-ops (support_cs.rs): a critical section is a block no other operation interleaves with; true parallelism inside it is outside the claim
 // @assume AtomicUsize::fetch_sub stubbed (support_cs.rs fetch_sub_never_last: decrements, reports "other references exist"): the shared state behind an Arc is never destroyed or freed; Drop impls of the channel handle types run for real, Arc::drop_slow and deallocation are outside the claim
 // @assume each poll step polls a fresh MpscReceiver::receive() future once (the future's only state is a clone of the shared Arc)
-// @assume trigger: the live-sender count reaches 0 while the queue is empty and the receiver exists
+// @assume scenario: the prefix ends with >= 1 live sender, an empty queue and a live receiver (kani::assume)
 // @enc dcps::channels::mpsc::MpscSender::send
+// @enc <dcps::channels::mpsc::MpscSender as Drop>::drop
 // @enc <dcps::channels::mpsc::MpscReceiverFuture as Future>::poll
 #[kani::proof]
 #[kani::unwind(4)]
 #[kani::stub(critical_section::acquire, super::support_cs::cs_acquire)]
 #[kani::stub(critical_section::release, super::support_cs::cs_release)]
 #[kani::stub(core::sync::atomic::Atomic::<usize>::fetch_sub, super::support_cs::fetch_sub_never_last)]
-fn c34_mpsc_last_sender_drop__known() {
-    mpsc_schedule_last_drop::<2, 2>();
+fn c34_mpsc_last_sender_drop() {
+    mpsc_schedule_last_drop::<1, 2>();
 }
 
 // =====================================================================================
@@ -724,15 +728,16 @@ fn c34_notification_schedule_k5() {
 }
 
 // @check props=C34 tier=thorough timeout=1500
-// @desc mpsc (negated trigger of KF-C34-1), element type (): for every schedule of 4 atomic operations from {send(i), clone sender i->j, drop sender i, poll with waker A|B, drop receiver} on up to 2 senders that never enters the state "every sender dropped, queue empty, receiver alive": send always succeeds; every poll is Ready(Some) iff the number of sends exceeds the number of receives (each sent element received exactly once, also after every sender is gone), Pending iff the queue is empty (and then a sender is alive), Ready(None) only if queue empty and no sender left; a send while the receiver is parked wakes the most recently registered waker
-// @bounds k = 4 operations (shorter included), <= 2 live senders, 1 receiver, 2 wakers, element type () (queue = counter; value identity / FIFO order: see c34_mpsc_fifo_three_values); unwind 5 = k + 1
+// @desc mpsc, element type (): for every schedule of 4 atomic operations from {send(i), clone sender i->j, drop sender i, poll, drop receiver} on up to 2 senders: send through a live handle always succeeds; every poll is Ready(Some) iff the number of sends exceeds the number of receives (each sent element received exactly once; elements queued before the last sender drop are delivered first), Pending iff the queue is empty and a sender is alive, Ready(None) iff the queue is empty and every sender is dropped; a send and the drop of the last sender while the receiver is parked wake the registered waker
+// @bounds k = 4 operations (shorter included), <= 2 live senders, 1 receiver, 1 waker, element type () (queue = counter; value identity / FIFO order: see c34_mpsc_fifo_three_values); unwind 5 = k + 1
 // @assume critical_section::acquire/release stubbed by no-ops (support_cs.rs): a critical section is a block no other operation interleaves with; true parallelism inside it is outside the claim
 // @assume AtomicUsize::fetch_sub stubbed (support_cs.rs fetch_sub_never_last: decrements, reports "other references exist"): the shared state behind an Arc is never destroyed or freed; Drop impls of the channel handle types run for real, Arc::drop_slow and deallocation are outside the claim
 // @assume each poll step polls a fresh MpscReceiver::receive() future once (the future's only state is a clone of the shared Arc)
-// @assume negated trigger of KF-C34-1: kani::assume(!(live senders == 0 && queue empty && receiver alive)) after every sender drop and every poll
+// @assume MpscSender::clone is two steps (sender_count += 1 in a critical section, then Arc clone) executed back to back; the cloning thread holds a live sender, so the count is >= 1 in between
 // @enc dcps::channels::mpsc::mpsc_channel
 // @enc dcps::channels::mpsc::MpscSender::send
 // @enc <dcps::channels::mpsc::MpscSender as Clone>::clone
+// @enc <dcps::channels::mpsc::MpscSender as Drop>::drop
 // @enc dcps::channels::mpsc::MpscReceiver::receive
 // @enc <dcps::channels::mpsc::MpscReceiverFuture as Future>::poll
 #[kani::proof]
@@ -740,20 +745,43 @@ fn c34_notification_schedule_k5() {
 #[kani::stub(critical_section::acquire, super::support_cs::cs_acquire)]
 #[kani::stub(critical_section::release, super::support_cs::cs_release)]
 #[kani::stub(core::sync::atomic::Atomic::<usize>::fetch_sub, super::support_cs::fetch_sub_never_last)]
-fn c34_mpsc_schedule_k4_two_wakers__rest() {
-    mpsc_schedule_rest::<4, 2, true>();
+fn c34_mpsc_schedule_k4() {
+    mpsc_schedule::<4, 2, false>();
 }
 
 // @check props=C34 tier=thorough timeout=1500
-// @desc mpsc (negated trigger of KF-C34-1), element type (): for every schedule of 5 atomic operations from {send(i), clone sender i->j, drop sender i, poll, drop receiver} on up to 3 senders that never enters the state "every sender dropped, queue empty, receiver alive": send always succeeds; every poll is Ready(Some) iff the number of sends exceeds the number of receives (each sent element received exactly once, also after every sender is gone), Pending iff the queue is empty (and then a sender is alive), Ready(None) only if queue empty and no sender left; a send while the receiver is parked wakes the registered waker
+// @desc mpsc, element type (): for every schedule of 4 atomic operations from {send(i), clone sender i->j, drop sender i, poll with waker A|B, drop receiver} on up to 2 senders: send through a live handle always succeeds; every poll is Ready(Some) iff the number of sends exceeds the number of receives (each sent element received exactly once; elements queued before the last sender drop are delivered first), Pending iff the queue is empty and a sender is alive, Ready(None) iff the queue is empty and every sender is dropped; a send and the drop of the last sender while the receiver is parked wake the most recently registered waker
+// @bounds k = 4 operations (shorter included), <= 2 live senders, 1 receiver, 2 wakers, element type () (queue = counter; value identity / FIFO order: see c34_mpsc_fifo_three_values); unwind 5 = k + 1
+// @assume critical_section::acquire/release stubbed by no-ops (support_cs.rs): a critical section is a block no other operation interleaves with; true parallelism inside it is outside the claim
+// @assume AtomicUsize::fetch_sub stubbed (support_cs.rs fetch_sub_never_last: decrements, reports "other references exist"): the shared state behind an Arc is never destroyed or freed; Drop impls of the channel handle types run for real, Arc::drop_slow and deallocation are outside the claim
+// @assume each poll step polls a fresh MpscReceiver::receive() future once (the future's only state is a clone of the shared Arc)
+// @assume MpscSender::clone is two steps (sender_count += 1 in a critical section, then Arc clone) executed back to back; the cloning thread holds a live sender, so the count is >= 1 in between
+// @enc dcps::channels::mpsc::mpsc_channel
+// @enc dcps::channels::mpsc::MpscSender::send
+// @enc <dcps::channels::mpsc::MpscSender as Clone>::clone
+// @enc <dcps::channels::mpsc::MpscSender as Drop>::drop
+// @enc dcps::channels::mpsc::MpscReceiver::receive
+// @enc <dcps::channels::mpsc::MpscReceiverFuture as Future>::poll
+#[kani::proof]
+#[kani::unwind(5)]
+#[kani::stub(critical_section::acquire, super::support_cs::cs_acquire)]
+#[kani::stub(critical_section::release, super::support_cs::cs_release)]
+#[kani::stub(core::sync::atomic::Atomic::<usize>::fetch_sub, super::support_cs::fetch_sub_never_last)]
+fn c34_mpsc_schedule_k4_two_wakers() {
+    mpsc_schedule::<4, 2, true>();
+}
+
+// @check props=C34 tier=thorough timeout=1500
+// @desc mpsc, element type (): for every schedule of 5 atomic operations from {send(i), clone sender i->j, drop sender i, poll, drop receiver} on up to 3 senders: send through a live handle always succeeds; every poll is Ready(Some) iff the number of sends exceeds the number of receives (each sent element received exactly once; elements queued before the last sender drop are delivered first), Pending iff the queue is empty and a sender is alive, Ready(None) iff the queue is empty and every sender is dropped; a send and the drop of the last sender while the receiver is parked wake the registered waker
 // @bounds k = 5 operations (shorter included), <= 3 live senders, 1 receiver, 1 waker, element type () (queue = counter; value identity / FIFO order: see c34_mpsc_fifo_three_values); unwind 6 = k + 1
 // @assume critical_section::acquire/release stubbed by no-ops (support_cs.rs): a critical section is a block no other operation interleaves with; true parallelism inside it is outside the claim
 // @assume AtomicUsize::fetch_sub stubbed (support_cs.rs fetch_sub_never_last: decrements, reports "other references exist"): the shared state behind an Arc is never destroyed or freed; Drop impls of the channel handle types run for real, Arc::drop_slow and deallocation are outside the claim
 // @assume each poll step polls a fresh MpscReceiver::receive() future once (the future's only state is a clone of the shared Arc)
-// @assume negated trigger of KF-C34-1: kani::assume(!(live senders == 0 && queue empty && receiver alive)) after every sender drop and every poll
+// @assume MpscSender::clone is two steps (sender_count += 1 in a critical section, then Arc clone) executed back to back; the cloning thread holds a live sender, so the count is >= 1 in between
 // @enc dcps::channels::mpsc::mpsc_channel
 // @enc dcps::channels::mpsc::MpscSender::send
 // @enc <dcps::channels::mpsc::MpscSender as Clone>::clone
+// @enc <dcps::channels::mpsc::MpscSender as Drop>::drop
 // @enc dcps::channels::mpsc::MpscReceiver::receive
 // @enc <dcps::channels::mpsc::MpscReceiverFuture as Future>::poll
 #[kani::proof]
@@ -761,24 +789,44 @@ fn c34_mpsc_schedule_k4_two_wakers__rest() {
 #[kani::stub(critical_section::acquire, super::support_cs::cs_acquire)]
 #[kani::stub(critical_section::release, super::support_cs::cs_release)]
 #[kani::stub(core::sync::atomic::Atomic::<usize>::fetch_sub, super::support_cs::fetch_sub_never_last)]
-fn c34_mpsc_schedule_k5__rest() {
-    mpsc_schedule_rest::<5, 3, false>();
+fn c34_mpsc_schedule_k5() {
+    mpsc_schedule::<5, 3, false>();
 }
 
-// @check props=C34 tier=thorough known=KF-C34-1 timeout=1500
-// @desc mpsc (trigger of KF-C34-1): as c34_mpsc_last_sender_drop__known with a 3-operation prefix
-// @bounds prefix of 3 symbolic operations, then <= 2 sender drops, then 1 poll; <= 2 senders, 1 waker, element type (); unwind 4
+// @check props=C34 tier=thorough timeout=1500
+// @desc mpsc last-sender drop: as c34_mpsc_last_sender_drop with a 2-operation prefix: after any 2-operation prefix that keeps a sender alive and leaves the queue empty and the receiver alive, every sender is dropped and the receiver polls once: the drop of the last sender wakes a parked receiver and the poll is Ready(None)
+// @bounds prefix of 2 symbolic operations, then <= 2 sender drops, then 1 poll; <= 2 senders, 1 waker, element type (); unwind 4
 // @assume critical_section::acquire/release stubbed by no-ops (support_cs.rs): a critical section is a block no other operation interleaves with; true parallelism inside it is outside the claim
 // @assume AtomicUsize::fetch_sub stubbed (support_cs.rs fetch_sub_never_last: decrements, reports "other references exist"): the shared state behind an Arc is never destroyed or freed; Drop impls of the channel handle types run for real, Arc::drop_slow and deallocation are outside the claim
 // @assume each poll step polls a fresh MpscReceiver::receive() future once (the future's only state is a clone of the shared Arc)
-// @assume trigger: the live-sender count reaches 0 while the queue is empty and the receiver exists
+// @assume scenario: the prefix ends with >= 1 live sender, an empty queue and a live receiver (kani::assume)
 // @enc dcps::channels::mpsc::MpscSender::send
+// @enc <dcps::channels::mpsc::MpscSender as Drop>::drop
 // @enc <dcps::channels::mpsc::MpscReceiverFuture as Future>::poll
 #[kani::proof]
 #[kani::unwind(4)]
 #[kani::stub(critical_section::acquire, super::support_cs::cs_acquire)]
 #[kani::stub(critical_section::release, super::support_cs::cs_release)]
 #[kani::stub(core::sync::atomic::Atomic::<usize>::fetch_sub, super::support_cs::fetch_sub_never_last)]
-fn c34_mpsc_last_sender_drop_p3__known() {
+fn c34_mpsc_last_sender_drop_p2() {
+    mpsc_schedule_last_drop::<2, 2>();
+}
+
+// @check props=C34 tier=thorough timeout=1500
+// @desc mpsc last-sender drop: as c34_mpsc_last_sender_drop with a 3-operation prefix
+// @bounds prefix of 3 symbolic operations, then <= 2 sender drops, then 1 poll; <= 2 senders, 1 waker, element type (); unwind 4
+// @assume critical_section::acquire/release stubbed by no-ops (support_cs.rs): a critical section is a block no other operation interleaves with; true parallelism inside it is outside the claim
+// @assume AtomicUsize::fetch_sub stubbed (support_cs.rs fetch_sub_never_last: decrements, reports "other references exist"): the shared state behind an Arc is never destroyed or freed; Drop impls of the channel handle types run for real, Arc::drop_slow and deallocation are outside the claim
+// @assume each poll step polls a fresh MpscReceiver::receive() future once (the future's only state is a clone of the shared Arc)
+// @assume scenario: the prefix ends with >= 1 live sender, an empty queue and a live receiver (kani::assume)
+// @enc dcps::channels::mpsc::MpscSender::send
+// @enc <dcps::channels::mpsc::MpscSender as Drop>::drop
+// @enc <dcps::channels::mpsc::MpscReceiverFuture as Future>::poll
+#[kani::proof]
+#[kani::unwind(4)]
+#[kani::stub(critical_section::acquire, super::support_cs::cs_acquire)]
+#[kani::stub(critical_section::release, super::support_cs::cs_release)]
+#[kani::stub(core::sync::atomic::Atomic::<usize>::fetch_sub, super::support_cs::fetch_sub_never_last)]
+fn c34_mpsc_last_sender_drop_p3() {
     mpsc_schedule_last_drop::<3, 2>();
 }
